@@ -123,7 +123,7 @@ def run(tier, seed, replay=None):
             vals = [p["value"]]
     else:
         specs = [{"classes": {}, "order": [], "root": s} for s in extreme_specs(rng)]
-        for _ in range(60 if tier == "quick" else 1500):
+        for _ in range(60 if tier == "quick" else 400):
             specs.append(dslgen.gen_doc(rng, dslgen.Cfg(max_depth=rng.choice([1, 2]), formats=True)))
     cases, metas = [], []
     for doc in specs:
@@ -162,7 +162,7 @@ def run(tier, seed, replay=None):
     # ---- parsing: metaschema-valid schemas, odd property names, deep nesting -------------------------------------
     schemas = []
     if not replay:
-        for _ in range(200 if tier == "quick" else 4000):
+        for _ in range(200 if tier == "quick" else 1500):
             s = gen.gen_schema(rng, gen.Cfg(max_depth=3, safe_names=False))
             if isinstance(s, dict):
                 schemas.append(s)
